@@ -1325,6 +1325,18 @@ class TaskScenario(ScenarioData):
                 # Can't book - one or more resources unavailable
                 return
 
+            # Team members work the same instants: if the slot is partly taken for one member
+            # (or the task may only start mid-slot), nobody starts before that point
+            slot_idx = self.currentSlotIdx if self.currentSlotIdx is not None else 0
+            team_offset = self.slotStartOffset if self.doneEffort == 0 else 0.0
+            for resource in resources_to_book:
+                team_offset = max(team_offset, resource.data[self.scenarioIdx].slotSecondsUsed.get(slot_idx, 0.0))
+            if team_offset > 0:
+                for resource in resources_to_book:
+                    res_scenario = resource.data[self.scenarioIdx]
+                    if res_scenario.slotSecondsUsed.get(slot_idx, 0.0) < team_offset:
+                        res_scenario.slotSecondsUsed[slot_idx] = team_offset
+
         # Now book all resources (or single resource for non-team tasks)
         booked_any = False
         total_effort_this_slot = 0.0
